@@ -63,6 +63,9 @@ use tracing::Instrument;
 use crate::concurrency::JoinHandle;
 use crate::ActorId;
 pub mod messages;
+#[cfg(slawlor_ractor_verif)]
+#[path = "/verif/hooks/actor.rs"]
+pub mod verif_probe;
 use messages::*;
 
 pub mod actor_cell;
